@@ -271,7 +271,7 @@ def check(case, tr):
             nonempty = sorted(t for t, d in d0.items() if not empty_structural(d) or not d["v"])
             want = [t + stage * case.start for t in sorted(d0) if t + stage * case.start < case.end]
             got = sorted(rep)
-            if got and set(got) <= set(want) and got != sorted(d0):
+            if (got or not want) and set(got) <= set(want) and got != sorted(d0):      # (all shifted ticks may fall beyond the end)
                 known.setdefault(MECH_SHIFT, f"replay#{stage}: run window starts at {case.start}; the original ticked at {sorted(d0)[:6]}, "
                                              f"the replay of its recording ticks at {got[:6]} (shifted by {stage * case.start})")
             elif got != sorted(d0) and d0:
